@@ -15,11 +15,11 @@ WIP = 'check under construction in this session (not yet claimed)'
 CHECKS = {
     'C03': dict(cat='fault_enumeration', ref='6/C03',
                 technique='deterministic simulation: enumerated TCP segmentations of scripted conversations on the real provider loop, differential oracle',
-                text='Real DULServiceProvider run loop on a simulated socket; for each conversation of a corpus every single cut offset of every peer turn (plus dribble, all-at-once, seeded pairs/k-cuts, prebuffered first segment, short reads, FIN right behind the last byte) must give the same user indications, the same PDUs on the wire and the same final state as one-PDU-per-segment delivery. Thorough adds every pair of cut offsets for the short turns.',
+                text='Real DULServiceProvider run loop on a simulated socket; for each conversation of a corpus every single cut offset of every peer turn (plus dribble, all-at-once, seeded pairs/k-cuts, prebuffered first segment, short reads, FIN right behind the last byte) must give the same user indications, the same PDUs on the wire and the same final state as one-PDU-per-segment delivery. Thorough adds every pair of cut offsets for the short turns. Also compared after every completely delivered turn: the number of indications and answers so far (a delivery must not leave received PDUs waiting for bytes that are not part of them); corpus includes an unexpected PDU with the peer\'s A-ABORT right behind it and a turn of exactly the provider\'s receive size.',
                 note='differential: a framing error that is independent of segmentation is C05/C12 territory; simulated TCP is a reliable ordered byte stream; atomicity between seams'),
     'C04': dict(cat='fault_enumeration', ref='6/C04',
                 technique='exhaustive cell enumeration against an executable transcription of PS3.8 Table 9-10 (real StateMachine.action on a real provider parked by the simulator)',
-                text='All 247 (state, event) cells x both roles x primitive variants x ARTIM prior state, entered by state assignment after a real role-establishing prefix and additionally by real histories through the running loop; wire bytes (reference-parsed), user indications, socket close, ARTIM start/stop/restart and next state compared with R-fsm; undefined cells must have no effect. Cells are also evaluated with a DIMSE message half received (histories Sta6p/Sta7p, variant pdata-rest).',
+                text='All 247 (state, event) cells x both roles x primitive variants x ARTIM prior state, entered by state assignment after a real role-establishing prefix and additionally by real histories through the running loop; wire bytes (reference-parsed), user indications, socket close, ARTIM start/stop/restart and next state compared with R-fsm; undefined cells must have no effect. Cells are also evaluated with a DIMSE message half received (histories Sta6p/Sta7p, variant pdata-rest). Every cell runs with bytes of a following PDU already in the receive buffer: an action that does not close the connection must leave them alone. Sta13 is also reached through the provider\'s own abort actions.',
                 note='R-fsm is my transcription of the table (123 defined cells asserted); observation reads current_state, timer._start_time, dul_socket, to_service_user'),
     'C05': dict(cat='exploration', ref='6/C05',
                 technique='deterministic simulation: event histories (exhaustive to a depth, seeded walks, concurrent bursts) on the real provider loop under virtual time, step-wise refinement of a reference protocol machine',
@@ -27,11 +27,11 @@ CHECKS = {
                 note='quiescence = 3 select periods without change; deadlines not approached closer than 1 s; sampling beyond the exhaustive depth'),
     'C12': dict(cat='exploration', ref='6/C12',
                 technique='deterministic simulation with fault injection: structure-aware PDU mutation and random bytes fed to the real provider loop in six protocol states under seeded segmentation, then FIN/RST/silence; crash/hang/orderly-end oracle plus two-branch reaction oracle against R-fsm',
-                text='For Sta2, Sta3, Sta5, Sta6 (both roles), Sta7, Sta8, Sta13 (two routes): every mutation operator instance of DESIGN App. C on rich A-ASSOCIATE-RQ/AC, RJ, P-DATA (echo, multi-PDV store), release and abort PDUs (thorough; seeded third in quick), DIMSE-level garbage, seeded random bytes and bit flips; the provider task must not die, must reach idle with the socket closed within ARTIM+1 s of FIN/RST (or of silence where ARTIM is armed), must have told the user, must emit only well-formed PDUs, and its reaction to an unrecognised/malformed PDU must follow the Evt19 row (or, for a merely malformed one, its own type row). Further cases: FIN immediately behind the last malformed byte; floods of 70/200 pipelined requests to a user that does not consume, then junk (bounded queues are modelled).',
+                text='For Sta2, Sta3, Sta5, Sta6 (both roles), Sta7, Sta8, Sta13 (two routes): every mutation operator instance of DESIGN App. C on rich A-ASSOCIATE-RQ/AC, RJ, P-DATA (echo, multi-PDV store), release and abort PDUs (thorough; seeded third in quick), DIMSE-level garbage, seeded random bytes and bit flips; the provider task must not die, must reach idle with the socket closed within ARTIM+1 s of FIN/RST (or of silence where ARTIM is armed), must have told the user, must emit only well-formed PDUs, and its reaction to an unrecognised/malformed PDU must follow the Evt19 row (or, for a merely malformed one, its own type row). Further cases: FIN immediately behind the last malformed byte; floods of 70/200 pipelined requests to a user that does not consume, then junk (bounded queues are modelled). States include the four release-collision states Sta9-Sta12; a peer-announced Maximum Length of 1..6 followed by a local send (real association layer, both roles).',
                 note='R-codec decides unrecognised/malformed/valid; reaction to valid PDUs and to DIMSE-level garbage is not judged beyond crash/hang/orderly end; sampling'),
     'C13': dict(cat='fault_enumeration', ref='6/C13',
                 technique='deterministic simulation with fault injection: disconnection (FIN/RST/silence) enumerated after every byte prefix of every scripted conversation, RST placed exactly before each write, connect failures, stop requests at every quiescent point, provider stalls; bounded-liveness oracle in virtual time',
-                text='16 conversations (echo, multi-fragment store, pipelining, release and abort from either side, reject, unknown PDU, both release collisions, find; both roles) on the real provider loop: the peer stream is cut after every byte prefix and ended by FIN, RST or silence (thorough: all three at every offset), the connection is reset exactly before the k-th PDU write, connect() is refused or times out, kill() is requested at every quiescent point, the provider thread is stalled; within ARTIM+1 s of virtual time the provider must be idle with the connection closed, the user told, and kill() must return with the loop finished. Further endings: partial PDUs dribbling in (header, part of the body, silence), a peer that keeps sending junk every 3 s in Sta13, and association-level scenarios on real AEs (abort/release/kill against silent peers, a source-file read error while the provider thread is fragmenting) after which leaving the association must return and no connection may stay open.',
+                text='16 conversations (echo, multi-fragment store, pipelining, release and abort from either side, reject, unknown PDU, both release collisions, find; both roles) on the real provider loop: the peer stream is cut after every byte prefix and ended by FIN, RST or silence (thorough: all three at every offset), the connection is reset exactly before the k-th PDU write, connect() is refused or times out, kill() is requested at every quiescent point, the provider thread is stalled; within ARTIM+1 s of virtual time the provider must be idle with the connection closed, the user told, and kill() must return with the loop finished. Further endings: partial PDUs dribbling in (header, part of the body, silence), a peer that keeps sending junk every 3 s in Sta13, and association-level scenarios on real AEs (abort/release/kill against silent peers, a source-file read error while the provider thread is fragmenting) after which leaving the association must return and no connection may stay open. Resets right behind every complete PDU (data still readable, connection already gone).',
                 note='silence must only end the provider where ARTIM is armed; Association.kill/release/abort on real AEs are exercised by the P2 workloads (C14/C15/C20); TCP model: FIN/RST ordering only'),
     'C06': dict(cat='exploration', ref='6/C06',
                 technique='deterministic simulation: real Association.send -> provider thread -> simulated wire under seeded schedules while the caller keeps sending/mutating; wire monitor (reference parser and reassembler) against a send-time snapshot; size grid sampled',
@@ -43,35 +43,35 @@ CHECKS = {
                 note='field-value grid sampled; the schedule-dependent part (encoding happens in another thread than send()) is what the simulator controls'),
     'C10': dict(cat='exploration', ref='6/C10',
                 technique='deterministic simulation: both roles of the real association layer against scripted peers over the full boundary grid of (configured, announced) maxima, with a bounded-virtual-time delivery (liveness) oracle in both directions',
-                text='All 100 pairs over {0,7,8,127,128,1024,16384,65536,2^31,2^32-1} x both roles: the Maximum Length the library announces is its configured value or less (0 only if configured 0), no P-DATA-TF it sends exceeds the peer\'s announced value unless that is 0, every message it sends (sizes below, at and three times the fragment size) is completely received by the peer and every message the peer sends within the announced limit is delivered to the application. Half of the messages are file objects positioned behind a header.',
+                text='All 100 pairs over {0,7,8,127,128,1024,16384,65536,2^31,2^32-1} x both roles: the Maximum Length the library announces is its configured value or less (0 only if configured 0), no P-DATA-TF it sends exceeds the peer\'s announced value unless that is 0, every message it sends (sizes below, at and three times the fragment size) is completely received by the peer and every message the peer sends within the announced limit is delivered to the application. Half of the messages are file objects positioned behind a header. Data sizes also chosen so that command set + data set land just below, at and above one PDU.',
                 note='recv(n) of the simulated socket does not model allocating n bytes; data sizes capped at 6000 bytes'),
     'C07': dict(cat='exploration', ref='6/C07',
                 technique='deterministic simulation with fault injection: reference-fragmented messages regrouped into PDUs by every composition, delivered over seeded segmentations to the real provider loop; step-wise oracle after every PDU against a reference reassembler; disk errors injected on the file-backed path (SimFS)',
-                text='For all 23 command-field codes, data set absent/present, the real provider in Sta6/Sta7 receives the fragment list under every composition into P-DATA-TF PDUs (exhaustive for lists of <= 7 / 10 fragments, seeded beyond), in memory or file-backed through the real AEBase.get_file/write_meta on a simulated file system, for three transfer syntaxes. After every PDU: nothing delivered and decoder receiving before the designated PDV; exactly one message of the right class, context id, command set and data bytes at it; the file is a Part-10 file (preamble, meta header naming the negotiated transfer syntax and the command\'s SOP class/instance, then exactly the transmitted bytes, positioned at the start). With ENOSPC/EIO at the n-th write no message is delivered, the association ends orderly and the file is closed. A file-backed message may be followed by an in-memory one on the same association (no decoder state may survive a completed message).',
+                text='For all 23 command-field codes, data set absent/present, the real provider in Sta6/Sta7 receives the fragment list under every composition into P-DATA-TF PDUs (exhaustive for lists of <= 7 / 10 fragments, seeded beyond), in memory or file-backed through the real AEBase.get_file/write_meta on a simulated file system, for three transfer syntaxes. After every PDU: nothing delivered and decoder receiving before the designated PDV; exactly one message of the right class, context id, command set and data bytes at it; the file is a Part-10 file (preamble, meta header naming the negotiated transfer syntax and the command\'s SOP class/instance, then exactly the transmitted bytes, positioned at the start). With ENOSPC/EIO at the n-th write no message is delivered, the association ends orderly and the file is closed. A file-backed message may be followed by an in-memory one on the same association (no decoder state may survive a completed message). Duplex cases: the local user hands over outgoing generator messages right before each incoming PDU; they must reach the wire intact while the incoming message is reassembled.',
                 note='one message at a time; R-dimse completion rule; meta header read by a purpose-written explicit-VR reader, not pydicom'),
     'C09': dict(cat='exploration', ref='6/C09',
                 technique='deterministic simulation: real AE/AssociationAcceptor/provider threads against a scripted requestor; small universe of requests x configurations enumerated, each answered A-ASSOCIATE-AC parsed by the reference codec and every context probed with a message',
-                text='Every subset of served SOP classes x every subset of 4 transfer syntaxes x requests with 0..3 contexts and every ordered list of 1..3 proposed transfer syntaxes (0 and 1 contexts exhaustively, 2 over a reduced set in thorough; seeded requests up to 128 contexts): one result item per proposed context, same ids and order; accepted iff served and some proposed syntax supported; returned syntax proposed and supported; AE titles and application context repeated; a probe on each accepted context reaches the service with exactly that (id, SOP class, syntax) and is answered on it; a probe on a refused or unproposed id reaches no service. Every case re-proposes an accepted id for an unserved class in a second association and probes it.',
+                text='Every subset of served SOP classes x every subset of 4 transfer syntaxes x requests with 0..3 contexts and every ordered list of 1..3 proposed transfer syntaxes (0 and 1 contexts exhaustively, 2 over a reduced set in thorough; seeded requests up to 128 contexts): one result item per proposed context, same ids and order; accepted iff served and some proposed syntax supported; returned syntax proposed and supported; AE titles and application context repeated; a probe on each accepted context reaches the service with exactly that (id, SOP class, syntax) and is answered on it; a probe on a refused or unproposed id reaches no service. Every case re-proposes an accepted id for an unserved class in a second association and probes it. Hot family: 2-3 requestors negotiate with a fresh entity at the same instant under line-level pre-emption in every function of the entity/association modules.',
                 note='result code of refused contexts only required non-zero; how the association ends after a message on a refused id is not judged'),
     'C11': dict(cat='exploration', ref='6/C11',
                 technique='deterministic simulation: real ClientAE/AE + AssociationRequester + provider thread against a scripted acceptor; configurations and reply patterns enumerated (small) and seeded (large); A-ASSOCIATE-RQ parsed by the reference codec, get_scu probed for every class',
-                text='Sequences of 1..4 add_scu/add_scp calls with 0..140 SOP classes (overlapping, totals around and beyond 128), 1..3 transfer syntaxes, maxima incl. 0: the request on the wire names remote/local AE titles, the DICOM application context, the configured maximum length, each configured class exactly once under distinct odd ids 1..255 with exactly the configured syntaxes; after a reply with any mix of results 0..4 and syntax choices, get_scu succeeds exactly for classes with an accepted context (bound to that id and the syntax the peer chose) and raises ClassNotSupportedError otherwise; a configuration that does not fit 128 contexts fails with a library error before a connection is opened. Classes repeated inside one list, and reconfiguration (add_scu/add_scp) between two associations of the same AE, are covered.',
+                text='Sequences of 1..4 add_scu/add_scp calls with 0..140 SOP classes (overlapping, totals around and beyond 128), 1..3 transfer syntaxes, maxima incl. 0: the request on the wire names remote/local AE titles, the DICOM application context, the configured maximum length, each configured class exactly once under distinct odd ids 1..255 with exactly the configured syntaxes; after a reply with any mix of results 0..4 and syntax choices, get_scu succeeds exactly for classes with an accepted context (bound to that id and the syntax the peer chose) and raises ClassNotSupportedError otherwise; a configuration that does not fit 128 contexts fails with a library error before a connection is opened. Classes repeated inside one list, and reconfiguration (add_scu/add_scp) between two associations of the same AE, are covered. The second association is answered the other way round (accepted before = refused now) and every class is looked up again.',
                 note='a service is expected only for classes configured with add_scu; replies that accept ids never proposed are out of scope'),
     'C14': dict(cat='exploration', ref='6/C14',
                 technique='deterministic simulation with fault injection: real AE server and real ClientAE (all their threads) on the simulated transport with a wire tap; scenarios x values x conversation points under seeded schedules; RST and stall faults in a separate relaxed configuration',
-                text='Reject with all 60 standard (result, source, reason) triples and seeded others: the RJ on the wire and the AssociationRejectedError at the requestor carry exactly the application\'s values and no service runs, even when a scripted requestor keeps sending after the refusal; abort by requestor or acceptor with reasons 0..255 before, between and during a multi-fragment transfer (up to 60 fragments still queued) reaches the wire with the right source/reason and surfaces as AssociationAbortedError with the same fields; release surfaces as AssociationReleasedError and is answered; leaving request_association normally releases (no A-ABORT), leaving it by an exception aborts (no A-RELEASE-RQ) and re-raises the user\'s exception. Also: the peer answers and aborts in one write and closes; leaving the context manager after a peer-requested release must put an A-ABORT or A-RELEASE-RP on the wire.',
+                text='Reject with all 60 standard (result, source, reason) triples and seeded others: the RJ on the wire and the AssociationRejectedError at the requestor carry exactly the application\'s values and no service runs, even when a scripted requestor keeps sending after the refusal; abort by requestor or acceptor with reasons 0..255 before, between and during a multi-fragment transfer (up to 60 fragments still queued) reaches the wire with the right source/reason and surfaces as AssociationAbortedError with the same fields; release surfaces as AssociationReleasedError and is answered; leaving request_association normally releases (no A-ABORT), leaving it by an exception aborts (no A-RELEASE-RQ) and re-raises the user\'s exception. Also: the peer answers and aborts in one write and closes; leaving the context manager after a peer-requested release must put an A-ABORT or A-RELEASE-RP on the wire. Also: the peer never answers the A-RELEASE-RQ of a normal exit (the failing release must end in an A-ABORT, nothing left running); responses still in flight at a normal exit.',
                 note='receiving-side exceptions observed by wrapping Association._get_dul_message; under RST only absence of wrong values is required; stalls below kill()\'s grace period'),
     'C17': dict(cat='exploration', ref='6/C17',
                 technique='deterministic simulation: the real service providers on a real AE (plus their sub-associations on the simulated listener table) against scripted users; reference command reader on every response',
-                text='verification_scp, storage_scp (file-backed), qr_find_scp, qr_move_scp (with a real sub-association to a scripted destination), StorageCommitment.n_action (+ the N-EVENT-REPORT it sends on a second association, success-only/failure-only/mixed), StorageCommitment.n_event_report and the C-STORE responses of qr_get_scu: for message ids {0,1,255,256,32767,32768,65535,+seeded}, several context ids, seeded UIDs and handler outcomes (success, warning, failure, EventHandlingError where documented) every response is on the request\'s context, of type request|0x8000, repeats message id, SOP class and instance, carries the handler\'s (or the documented failure) status, and every request is answered within bounded virtual time. Concurrent associations and a second request on another context id negotiated for the same class are covered.',
+                text='verification_scp, storage_scp (file-backed), qr_find_scp, qr_move_scp (with a real sub-association to a scripted destination), StorageCommitment.n_action (+ the N-EVENT-REPORT it sends on a second association, success-only/failure-only/mixed), StorageCommitment.n_event_report and the C-STORE responses of qr_get_scu: for message ids {0,1,255,256,32767,32768,65535,+seeded}, several context ids, seeded UIDs and handler outcomes (success, warning, failure, EventHandlingError where documented) every response is on the request\'s context, of type request|0x8000, repeats message id, SOP class and instance, carries the handler\'s (or the documented failure) status, and every request is answered within bounded virtual time. Concurrent associations and a second request on another context id negotiated for the same class are covered. The concurrent family runs under line-level pre-emption with parking inside the encoding functions.',
                 note='data sets built with pydicom; EventHandlingError injected only where a failure status is documented'),
     'C15': dict(cat='exploration', ref='6/C15',
                 technique='deterministic simulation with fault injection: two or more real application entities (client and server, every handler and provider thread) on the simulated transport and file system under seeded schedules; byte-level end-to-end oracle and an append-only directory model; disk-error, RST and stall faults in a relaxed configuration',
-                text='Seeded data sets (nested sequences, odd-length values, sizes up to hundreds of fragments, incl. exact multiples of the fragment payload) in three transfer syntaxes, asymmetric maxima, sent from a Dataset or a Part-10 file to file-backed storage_scp, to StorageAE directory storage or to an in-memory SCP, 1..3 concurrent associations with 1..3 stores each, also of the SAME SOP instance UID: the handler receives exactly the sent bytes tagged with the sent class/instance/syntax (file meta header checked by an own reader), the sender gets the handler\'s status (0xC000 for EventHandlingError), every acknowledged store has its own intact file and no existing file is ever reopened for truncation. Concurrent clients negotiate different transfer syntaxes.',
+                text='Seeded data sets (nested sequences, odd-length values, sizes up to hundreds of fragments, incl. exact multiples of the fragment payload) in three transfer syntaxes, asymmetric maxima, sent from a Dataset or a Part-10 file to file-backed storage_scp, to StorageAE directory storage or to an in-memory SCP, 1..3 concurrent associations with 1..3 stores each, also of the SAME SOP instance UID: the handler receives exactly the sent bytes tagged with the sent class/instance/syntax (file meta header checked by an own reader), the sender gets the handler\'s status (0xC000 for EventHandlingError), every acknowledged store has its own intact file and no existing file is ever reopened for truncation. Concurrent clients negotiate different transfer syntaxes. Slow-receiver family: 2-32 KiB of buffering between the applications, storing side stalled for 6-45 s in mid-transfer (flow control; nothing may be given up). Hot family with line-level pre-emption in the file-building functions.',
                 note='pydicom trusted to build data sets; under injected ENOSPC/EIO/RST a store may fail, an acknowledged one must still be right'),
     'C16': dict(cat='exploration', ref='6/C16',
                 technique='deterministic simulation: real find provider and user (and the c_find wrapper) with all their threads under seeded schedules incl. user-thread-ahead bias and stalls; produced-sequence == received-sequence oracle',
-                text='Match sequences of length 0..8 with seeded data sets (incl. exact multiples of the fragment payload) and any mix of FF00/FF01, three transfer syntaxes, maxima down to 40, instant or delayed handler, patient/study root, worklist and c_find variants, final statuses success (real SCP) and failure/cancel/warning (scripted SCP): the user receives exactly the produced (data set, status) pairs in order plus one final non-pending response and then stops; the query reaches the handler unchanged. A hot family runs concurrent query users with line-level pre-emption inside dsutils.',
+                text='Match sequences of length 0..8 with seeded data sets (incl. exact multiples of the fragment payload) and any mix of FF00/FF01, three transfer syntaxes, maxima down to 40, instant or delayed handler, patient/study root, worklist and c_find variants, final statuses success (real SCP) and failure/cancel/warning (scripted SCP): the user receives exactly the produced (data set, status) pairs in order plus one final non-pending response and then stops; the query reaches the handler unchanged. A hot family runs concurrent query users with line-level pre-emption inside dsutils. A quarter of the cases store an instance (file-backed) on the same association before the query.',
                 note='data sets compared by re-encoding with pydicom; stalls below library timeouts'),
     'C19': dict(cat='exploration', ref='6/C19',
                 technique='deterministic simulation: real C-GET user against a scripted provider, and a three-node C-MOVE (scripted user, real provider, real destination AE over a second simulated association) under seeded schedules and stalls; exactly-once/order/counter oracle on the wire and at the destination',
